@@ -149,8 +149,22 @@ pub fn gen_c14(tier: &str, seed: u64, out: &str, mc: Option<&str>, release_exe: 
             let ids = if f == "uncompact" && p["demand"] == "err" && v >= 2 {
                 // the honest answer is Err, whatever stands in front: a coarse valid cell must not make the call
                 // reserve or expand anything before the offending element has been looked at
-                let front = match v % 3 { 0 => 0u64, 1 => a5::lonlat_to_cell(LonLat::new(7.0, 50.0), 0).unwrap(), _ => a5::lonlat_to_cell(LonLat::new(7.0, 50.0), 9).unwrap() };
-                vec![front, id]
+                // ... nor may the SUM of what the valid cells in front would expand to (up to several whole worlds: beyond
+                // 2^63 and 2^64 cells at the finest targets) overflow anything before the offender is reached
+                let face = a5::lonlat_to_cell(LonLat::new(7.0, 50.0), 0).unwrap();
+                let mut front: Vec<u64> = match (i * 7 + v as usize) % 9 {
+                    0 => vec![0u64],
+                    1 => vec![face],
+                    2 => vec![a5::lonlat_to_cell(LonLat::new(7.0, 50.0), 9).unwrap()],
+                    3 => vec![0u64; 3],
+                    4 => vec![0u64; 5],
+                    5 => vec![0u64; 9],
+                    6 => { let mut l = a5::get_res0_cells().unwrap(); l.push(0); l.extend(a5::cell_to_children(0, Some(1)).unwrap()); l.push(0); l }
+                    7 => vec![face; 30],
+                    _ => { let mut l = vec![]; for _ in 0..11 { l.extend(a5::get_res0_cells().unwrap()); } l }
+                };
+                front.push(id);
+                front
             } else if f == "compact" && v == 1 && status == "canonical" && a5::get_resolution(id) >= 2 {
                 // the complete staircase from this cell up to the world cell: at every level all siblings of the ancestor
                 // (valid, canonical, non-overlapping input that merges once per level, as many passes as there are levels)
